@@ -384,6 +384,16 @@ theorem C13_no_shared_ctx : ∀ a ∈ Mcp.Gen.cfStores, storeAllowed a = true :=
     been classified (a new one breaks this until it is looked at). -/
 theorem C13_carriers_classified : ∀ f ∈ Mcp.Gen.cfCarrierFields, carrierKnown f = true := by decide
 
+/-- No function of package mcp appends to a shared slice (struct field / package-level variable) without assigning the
+    result back to that slice: no per-request element is ever written into the spare capacity of a server-level
+    backing array (where concurrent requests would overwrite each other's — e.g. the innermost layer of a middleware
+    chain built as `append(h.middlewares, layerOfThisRequest)`). -/
+theorem C13_no_shared_slice_aliasing : Mcp.Gen.cfFieldAppends.all appendOk = true := by decide
+
+/-- … and the predicate does reject that shape. -/
+example : appendOk (t!"mcpHandler.handleRequest", t!"mcpHandler.middlewares", t!"aliased") = false ∧
+    appendOk (t!"mcpHandler.use", t!"mcpHandler.middlewares", t!"assign-back") = true := by decide
+
 /-- Every context passed on by a call in the server-side files is the function's own parameter, derived from it
     through calls that take it, or the request's own `r.Context()` — never a stored one, never `Background()`. -/
 theorem C13_ctx_args_request_derived : Mcp.Gen.cfCtxArgs.all argOk = true := by decide
